@@ -25,6 +25,7 @@ type Dep struct {
 	Constr  string   // union constraint
 	StrIf   string   // method constraint: interface{ String() string }
 	Extra   []string // further plain named types (std)
+	needsAlias bool  // some file had to alias it: every file does
 	Fixed    bool    // part of every tree (used by a fixed interface)
 	GenAlias string  // generic alias over an unnamed type: type List[E any] = []E
 	Transient *Dep   // Embed mentions types of this package
@@ -289,7 +290,7 @@ func (b *builder) nextUID() string { b.uid++; return fmt.Sprintf("%d", b.uid) }
 func (b *builder) makeDeps() {
 	t := b.t
 	usedDirs := map[string]bool{t.SrcDir: true}
-	sanitised := map[string]bool{}
+	sanitised := map[string]bool{sanitisePath(t.SrcPath): true} // the source package is imported too when mocking into another package
 	var names []string
 	if b.prof.Cluster {
 		// a/one, b/one, c/b/one: same name, never imported by the source package itself
@@ -548,6 +549,54 @@ func (b *builder) render() {
 			nfiles = i.File + 1
 		}
 	}
+	// pre-pass: decide tree-wide which dependencies need the per-dependency fallback alias, so that one import
+	// path has one alias in every file and one alias never names two paths
+	usedIn := make([][]*Dep, nfiles)
+	for f := 0; f < nfiles; f++ {
+		seen := map[*Dep]bool{}
+		for _, i := range t.Ifaces {
+			if i.File != f {
+				continue
+			}
+			i.walkTypes(func(x *T) {
+				if x.Kind == KPkg && !seen[x.Pkg] {
+					seen[x.Pkg] = true
+					usedIn[f] = append(usedIn[f], x.Pkg)
+				}
+			})
+		}
+		sort.Slice(usedIn[f], func(i, j int) bool { return usedIn[f][i].Path < usedIn[f][j].Path })
+	}
+	qualOf := func(d *Dep) string {
+		if d.needsAlias {
+			if d.Std {
+				return fmt.Sprintf("%sstd%d", d.Name, len(d.Path))
+			}
+			return fmt.Sprintf("%sq%s", d.Name, d.UID)
+		}
+		if d.SrcAlias != "" {
+			return d.SrcAlias
+		}
+		return d.Name
+	}
+	for changed := true; changed; {
+		changed = false
+		for f := 0; f < nfiles; f++ {
+			taken := map[string]bool{}
+			for _, d := range usedIn[f] {
+				if d.SrcAlias == "." {
+					continue
+				}
+				q := qualOf(d)
+				if taken[q] && !d.needsAlias {
+					d.needsAlias = true
+					changed = true
+					q = qualOf(d)
+				}
+				taken[q] = true
+			}
+		}
+	}
 	for f := 0; f < nfiles; f++ {
 		used := map[*Dep]bool{}
 		for _, i := range t.Ifaces {
@@ -577,8 +626,9 @@ func (b *builder) render() {
 			if d.SrcAlias != "" {
 				q = d.SrcAlias
 			}
+			q = qualOf(d) // decided tree-wide in the pre-pass
 			for n := 0; taken[q]; n++ {
-				q = fmt.Sprintf("%sq%d", d.Name, n)
+				q = fmt.Sprintf("%sq%sx%d", d.Name, d.UID, n)
 			}
 			taken[q] = true
 			quals[d] = q
